@@ -6,6 +6,7 @@
 -/
 import SCoda.Model.Midi
 import SCoda.Model.Render
+import SCoda.Model.Extract
 import SCoda.Gen.Tables
 import SCoda.Gen.Settings
 import SCoda.Gen.TheoryFns
@@ -122,13 +123,6 @@ def tokSt (c : Cfg) : P TokSt := do
 
 def pTokSt (s : TokSt) : String :=
   " ".intercalate ([s.curTime, s.curTimeBar, s.tsNum, s.tsDen, s.capRem, s.prvTrack, s.prvValue, s.prvVel].map toString)
-
-/-- the merge + pairing glue of `tokenise`: tracks (relative views) to interleaved pairings -/
-def extract (ppqn : Int) (tracks : List (List Msg)) : List (Int × Pairing) :=
-  let abss := tracks.zipIdx.map (fun (r, i) => toAbs (setChannel (i : Int) r))
-  let merged := mergeAbs [] abss
-  let rel := normalise (toRel merged)
-  interleaved [.noteOn, .noteOff, .timeSignature, .internal] ppqn true (toAbs rel)
 
 def parseToks (ws : List String) : Except String (List Tok) :=
   ws.mapM (fun w => match parseTok w with
